@@ -172,7 +172,7 @@ ENTRIES = {
     "C14": dict(
         category='exploration', design='DESIGN.md §4/C14',
         technique=(
-        'TLA+ spec (Determinism: table of 47 emission points, ordering kinds, static taint) + TLC: two-run '
+        'TLA+ spec (Determinism: table of 49 emission points, ordering kinds, static taint) + TLC: two-run '
         'model with the hash seed as adversary (MC_Determinism); trace validation (Trace_Determinism) of '
         'observations from fresh interpreters under different PYTHONHASHSEED values ').strip(),
         text=(
